@@ -116,4 +116,119 @@ func init() {
 			ck.RequiredFaults = []string{"relay.dup", "relay.replay", "relay.stale_proof"}
 			ck.RequiredProbes = []string{"redundant_recv_noop", "block_of_only_redundant_relays"}
 		})
+
+	coreCheck("C02",
+		"worlds with ORDERED mock channels (tendermint-backed and localhost); relayers deliver later packets first, duplicate, replay and relay acknowledgements out of order. Oracle: committed receive callbacks per ordered channel end are exactly 1,2,3,...; acknowledgement callbacks on the sender likewise. Non-trivial case = distinct (route kind, outcome, gap) of a committed out-of-order receive/ack attempt",
+		[]string{"ooo:", "ooo-ack:"}, 96, 1600,
+		func(o *CoreOptions, r *rand.Rand, tier string) {
+			o.Kinds = subset(r, []string{"v1o", "loco", "v1u"}, "v1o")
+			o.WDup, o.WRelay, o.WSend = 14, 40, 26
+			o.FrontBias = 25
+			o.TightTmo = 10
+			o.WClose = 0
+			o.MaxPkts = 18
+		},
+		func(ck *sim.Check) {
+			ck.RequiredProbes = []string{"ordered_out_of_order_receive_refused", "ordered_out_of_order_ack_refused"}
+		})
+
+	coreCheck("C03",
+		"worlds over every route kind where acknowledgement, timeout and timeout-on-close relays are duplicated, replayed and raced against each other and against the receive. Oracle: per sent packet #ack callbacks + #timeout callbacks <= 1; the commitment is gone after the terminal message and never comes back; a block made only of terminal relays for finished packets has an empty store diff. Non-trivial case = distinct (route kind, message, outcome, prior terminal state) of a committed redundant terminal relay",
+		[]string{"redundant:"}, 96, 1600,
+		func(o *CoreOptions, r *rand.Rand, tier string) {
+			o.Kinds = subset(r, allKinds)
+			o.WDup, o.WEarlyTmo = 16+r.Intn(10), 12
+			o.TightTmo = 55
+			o.WClose = 3
+		},
+		func(ck *sim.Check) {
+			ck.RequiredFaults = []string{"relay.race", "relay.replay"}
+			ck.RequiredProbes = []string{"redundant_tmo_noop", "redundant_ack_noop"}
+		})
+
+	coreCheck("C04",
+		"worlds with tight timeouts (height, time, both; v2 seconds) near the destination's next blocks, clock skew and jumps, stalls; relayers submit timeouts early, at stale and future proof heights, race receive against timeout. Oracle against the destination's REAL history: an accepted timeout's proof height is a height the destination produced, the destination had not received the packet in the state proven, the header at that height had reached the timeout (v2: whole seconds of nanosecond time); localhost: the executing block had reached the timeout; every receive happens strictly before the timeout; nothing is both received and timed out. Non-trivial case = distinct (route kind, message, received?) of an accepted timeout plus distinct refused early timeouts",
+		[]string{"timeout:", "early-refused:"}, 96, 1600,
+		func(o *CoreOptions, r *rand.Rand, tier string) {
+			o.Kinds = subset(r, allKinds)
+			o.TightTmo = 80
+			o.WEarlyTmo = 16
+			o.WBlock = 26
+			o.WDup = 6
+		},
+		func(ck *sim.Check) {
+			ck.RequiredFaults = []string{"relay.early_timeout", "relay.race"}
+			ck.RequiredProbes = []string{"timeout_refused", "tmo_success", "localhost_timeout_with_future_proof_height"}
+		})
+
+	coreCheck("C08",
+		"worlds interleaving v1 sends, v2 sends on the alias of the same channel and v2 sends on plain clients (several users, same block), with timeouts around every guard boundary (already passed on the client, == block time, +-1 s, now+24h, +24h+1s) and clients that expire between sends. Oracle: successful sends on one source id return 1,2,3,... (counter shared by v1 and alias); exactly one new commitment key per successful send; the specification's guard predicate evaluated on the real pre-state agrees with accept/refuse. Non-trivial case = distinct (route kind, refusal reason)",
+		[]string{"send-refused:"}, 96, 1600,
+		func(o *CoreOptions, r *rand.Rand, tier string) {
+			o.Kinds = subset(r, []string{"v1u", "v2a", "v2", "v1o", "loc"}, "v1u", "v2a")
+			o.WSend = 45
+			o.MaxPkts = 40
+			o.WBlock = 22
+			o.WClose = 3
+			o.GuardBoundary = 25
+		},
+		func(ck *sim.Check) {
+			ck.RequiredProbes = []string{"send_ok_v1u", "send_ok_v2a", "send_refused", "v2_send_guard_boundary_value"}
+		})
+
+	coreCheck("C09",
+		"receives whose application script writes k in 0..3 state entries and then succeeds, fails, goes async or panics, on every mock route kind. Oracle on the store diff of the receiving transaction: error ack => no application write persists and the IBC store gains exactly {receipt or receive counter, ack commitment}; success/async => all k writes persist; panic => whole transaction reverted and the packet still receivable; stored ack commitment = commitment of the announced ack. Non-trivial case = distinct (route kind, script, outcome)",
+		[]string{"recv-effects:"}, 96, 1600,
+		func(o *CoreOptions, r *rand.Rand, tier string) {
+			o.Kinds = subset(r, allKinds)
+			o.Behaviours = []string{"ok", "fail", "async", "panic", "w1ok", "w2ok", "w3ok", "w1fail", "w2fail", "w3fail", "w2async", "w2panic"}
+			o.WDup, o.WEarlyTmo, o.TightTmo = 4, 2, 10
+		},
+		func(ck *sim.Check) {
+			ck.Level = "fault_enumeration"
+			ck.RequiredProbes = []string{"recv_exact_write_set_checked"}
+		})
+
+	coreCheck("C10",
+		"IBC v2 packets with 1..3 payloads over two mock v2 applications (plain clients and alias); each payload's script independently succeeds, fails, goes async, writes state then fails, or returns the error sentinel as a success. Oracle: all succeed => every write persists and the ack lists one app ack per payload in payload order; any failure => no application write persists and the ack is exactly the single universal error ack; async with >1 payload or sentinel-in-success => the whole transaction fails and the packet stays receivable; the sender's ack callback gets each payload its own ack. Non-trivial case = distinct (route kind, status vector, outcome)",
+		[]string{"recv-effects:", "txfail:"}, 96, 1600,
+		func(o *CoreOptions, r *rand.Rand, tier string) {
+			o.Kinds = subset(r, []string{"v2", "v2a"})
+			o.Payloads = 3
+			o.Behaviours = []string{"ok", "w1ok", "w2ok", "fail", "w2fail", "async", "sentinel", "ok", "w1ok"}
+			o.WDup, o.WEarlyTmo, o.TightTmo = 4, 2, 5
+			o.WSend = 30
+		},
+		func(ck *sim.Check) {
+			ck.Level = "fault_enumeration"
+		})
+
+	coreCheck("C11",
+		"worlds where applications receive asynchronously and later write acknowledgements — repeatedly, prematurely (before the receive), for never-received sequences and long after a synchronous ack — interleaved with relays. Oracle: the stored ack commitment per (destination id, sequence) goes absent* value* (never changes once set); a second write is refused; v2 refuses a write without receipt; the v2 async-packet record exists exactly from the async receive until the ack write. Non-trivial case = distinct (protocol, packet state, write outcome, repetition)",
+		[]string{"wack:"}, 96, 1600,
+		func(o *CoreOptions, r *rand.Rand, tier string) {
+			o.Kinds = subset(r, allKinds)
+			o.Behaviours = []string{"async", "async", "ok", "fail", "w1async"}
+			o.WAsyncAck = 18
+			o.WDup = 8
+			o.TightTmo = 10
+		},
+		func(ck *sim.Check) {
+			ck.RequiredProbes = []string{"async_ack_written", "async_ack_write_refused", "async_ack_repeated_write_attempt", "async_ack_premature_write_attempt"}
+		})
+
+	coreCheck("C14",
+		"worlds with ORDERED channels and tight timeouts so that several packets are in flight when one times out; afterwards the run keeps sending, receiving, acknowledging and timing out on that channel. Oracle: after a committed timeout / timeout-on-close the sender's end is CLOSED; no later send, receive or acknowledgement on that end succeeds; timeouts of the other in-flight packets do. Non-trivial case = distinct (message kind, outcome) attempted on an end closed by a timeout",
+		[]string{"closed-ordered:"}, 96, 1600,
+		func(o *CoreOptions, r *rand.Rand, tier string) {
+			o.Kinds = subset(r, []string{"v1o", "loco"}, "v1o")
+			o.TightTmo = 60
+			o.WSend = 34
+			o.WEarlyTmo = 8
+			o.WClose = 0
+			o.MaxPkts = 20
+		},
+		func(ck *sim.Check) {
+			ck.RequiredProbes = []string{"ordered_timeout_closed_channel", "packet_message_refused_on_channel_closed_by_timeout"}
+		})
 }
